@@ -227,7 +227,8 @@ ActionClauses(e) ==
                     IF DupHead(pre) THEN "C15.duplicate-heading-remark-dropped-by-regrouping"
                     ELSE IF e.act = "Reparse" THEN "C06.text-of-a-live-list-does-not-parse-back-to-itself" ELSE "C16.copy-text-or-data-differs")
              \o (IF e.act = "Reparse" THEN <<>> ELSE
-                 Chk(Notes(tw.items) = Notes(pre.items) /\ tw.note = pre.note, e, "C16.copy-lost-note")
+                 Chk(Notes(tw.items) = Notes(pre.items) /\ tw.note = pre.note, e,
+                     IF DupHead(pre) THEN "C15.duplicate-heading-remark-dropped-by-regrouping" ELSE "C16.copy-lost-note")
                  \o Chk(e.act = "DataRoundTrip" \/ (AllIds(tw) \cap AllIds(pre)) \subseteq {""}, e, "C16.copy-shares-identifiers")
                  \o Chk(e.shared_mutables = 0, e, "C16.copy-shares-mutable-state")))
     [] e.act = "TwinOp" ->        \* an operation applied to the twin: the source must stay as it is
